@@ -80,9 +80,18 @@ def flat_expr(kind, n, base=0, strkeys=False):
     return container_expr(kind, [str(base + i) for i in range(n)])
 
 
+LARGE = ['list(range(60))', 'tuple(range(45))', 'set(range(40))', 'frozenset(range(35))', '{i: str(i) for i in range(40)}',
+         '[list(range(30)), tuple(range(8)), {i: i for i in range(34)}]', '{"k": list(range(61)), "j": (1, 2)}',
+         '[[list(range(33))]]']
+LARGE_NS = [33, 34, 59, 60, 61]
+
+
 def domain(tier):
     """list of (expr, tags)"""
     out = []
+    # F0 large containers (sizes and limits the families below never reach: a size threshold in a printer shows only here)
+    for e in LARGE:
+        out.append((e, ['large', 'nested' if '[[' in e or '{"k"' in e or e.startswith('[list') else 'flat']))
     # F1 flat
     for kind in KINDS:
         for n in range(7):
@@ -354,7 +363,7 @@ def _shard(arg):
             continue
         value = eval(expr, dict(NS))
         sorts = (False, True) if has_dict(value) and keys_totally_ordered(value) else (False,)
-        for n in NS_VALUES:
+        for n in NS_VALUES + (LARGE_NS if 'large' in tags else []):
             for w in WIDTHS:
                 for sort in sorts:
                     kwargs = {'max_seq_len': n, 'width': w}
